@@ -19,7 +19,7 @@ RULE = ("Random valid level Series and 1-3-column DataFrames: length 2-2000, dai
         "(math.fsum, own linear-interpolation quantile, ddof 1, 252 trading days, 365-day years, last observation per calendar day); "
         "structural clauses (drawdown in (-1,0], 0 at running maxima, (1+CAGR)^years == last/first); scale invariance: x2^k "
         "bit-identical, x c for random c>0 within tolerance; TrackRecord.tearsheet() of a real episode equals the individual metrics. "
-        "Systematic part: every single-defect corruption {NaN, 0, negative, duplicated index entry, unsorted, RangeIndex, string index, "
+        "Systematic part: every single-defect corruption {NaN, 0, negative, duplicated index entry, unsorted (swapped / reversed / rotated), RangeIndex, string index, "
         "NaT} x every listed metric applied to self and to the other/risk_free argument must raise. Non-trivial = length >= 5 with "
         "both positive and negative returns (or any corruption case).")
 ASSUMPTIONS = ["CAPM alpha/beta and omega are not in the property's list and are not judged",
@@ -318,7 +318,7 @@ def tearsheet_case(ctx):
 
 
 # ---- corruption matrix (systematic) --------------------------------------- #
-CORRUPTIONS = ["nan", "zero", "neg", "dup", "unsorted", "rangeidx", "stridx", "nat"]
+CORRUPTIONS = ["nan", "zero", "neg", "dup", "unsorted", "rangeidx", "stridx", "nat", "reversed", "rotated"]
 METHODS = ["simple_returns", "log_returns", "cagr", "volatility", "drawdown", "max_drawdown", "value_at_risk",
            "expected_shortfall", "downside_volatility", "upside_volatility", "sharpe_ratio", "sortino_ratio", "calmar_ratio",
            "martin_risk", "martin_ratio"]
@@ -341,6 +341,11 @@ def corrupt(base, kind, pos):
         order = list(range(n))
         order[pos - 1], order[pos] = order[pos], order[pos - 1]
         s = s.iloc[order]
+    elif kind == "reversed":
+        # the whole record in descending order (a regular index keeps a - negative - frequency)
+        s = s.iloc[::-1] if pos % 2 else s.sort_index(ascending=False)
+    elif kind == "rotated":
+        s = pd.concat([s.iloc[pos:], s.iloc[:pos]])
     elif kind == "rangeidx":
         s = s.reset_index(drop=True)
     elif kind == "stridx":
